@@ -56,6 +56,12 @@ class C01(Check):
         o.stats["fy.status.%s" % r1.status] += 1
         o.stats["state." + spec["state"]] += 1
         sig = fault_signature(st["faults"]) if st["faults"] else spec["state"]
+        cw = (st["details"].get("crash") or {}).get("writer")
+        if cw and not st["faults"]:
+            # which tool was interrupted matters: a crashed whole-filesystem rewrite is a different class
+            # of damage from a crashed debugfs command
+            w = cw.split()
+            sig = "crashed_writer:" + w[0] + ("" if len(w) < 2 or w[0] in ("debugfs", "resize2fs") else w[1].lstrip("^"))
         o.sample = {"state": spec["state"], "features": feats, "bs": st["cfg"]["bs"], "faults": [f["what"] for f in st["faults"]],
                     "details": str(st["details"])[:300], "fy_status": r1.status, "fy_problem_codes": ["%#x" % c for c in codes1[:12]]}
         if r1.san or r1.timeout or r1.signal or r1.budget_hit:
